@@ -591,6 +591,12 @@ func (se *SpecEnv) call(e *SCall) SVal {
 			return x
 		}
 		if x.Ty == nil {
+			if x.T.Sort == SSlice {
+				if e.Fun == "cap" {
+					return SVal{T: sCap(x.T)}
+				}
+				return SVal{T: sLen(x.T)}
+			}
 			return se.fail("len of untyped")
 		}
 		switch xt := x.Ty.Underlying().(type) {
@@ -671,6 +677,16 @@ func (se *SpecEnv) call(e *SCall) SVal {
 		x := se.value(se.eval(e.Args[0]))
 		h := ex.get(se.st, "G|closed", arraySort(SRef, SBool))
 		return SVal{T: sel(h, x, SBool)}
+	case "base", "off":
+		// backing array and offset of a slice value
+		x := se.value(se.eval(e.Args[0]))
+		if x.Sort != SSlice {
+			return se.fail("%s of non-slice", e.Fun)
+		}
+		if e.Fun == "base" {
+			return SVal{T: sBase(x)}
+		}
+		return SVal{T: sOff(x)}
 	case "addr":
 		// addr(x): Ref of an addressable spec value
 		x := se.eval(e.Args[0])
